@@ -12,12 +12,13 @@ cp $WT/SEEDED.md $OUT/SEEDED.md 2>/dev/null
 C=/tmp/confirm-$ID; rm -rf $C; git -C /repo worktree add -q --detach $C HEAD; cp /repo/Cargo.lock $C/
 export CARGO_NET_OFFLINE=true CARGO_TARGET_DIR=$C/target
 cp $OUT/demo_seeded_demo.rs $C/tests/seeded_demo.rs
+DEMOFLAGS=""; grep -q "cfg(in_toto_verif)" $OUT/demo_seeded_demo.rs && DEMOFLAGS="--cfg in_toto_verif"
 # copy any extra fixture files the demo added under tests/
 ( cd $WT && git status --short -- tests | grep '^??' | awk '{print $2}' ) | while read f; do [ "$f" = "tests/seeded_demo.rs" ] || { mkdir -p $C/$(dirname $f); cp -r $WT/$f $C/$f; }; done
-( cd $C && cargo nextest run --test seeded_demo --no-fail-fast --offline 2>&1 | tail -3 ) > $OUT/demo_without_patch.log
+( cd $C && RUSTFLAGS="$DEMOFLAGS" cargo nextest run --test seeded_demo --no-fail-fast --offline 2>&1 | tail -3 ) > $OUT/demo_without_patch.log
 git -C $C apply $OUT/patch.diff || { echo "patch does not apply"; exit 1; }
 ( cd $C && cargo nextest run --workspace --no-fail-fast --offline -E 'not binary(seeded_demo)' 2>&1 | tail -2 ) > $OUT/suite_with_patch.log
-( cd $C && cargo nextest run --test seeded_demo --no-fail-fast --offline 2>&1 | tail -6 ) > $OUT/demo_with_patch.log
+( cd $C && RUSTFLAGS="$DEMOFLAGS" cargo nextest run --test seeded_demo --no-fail-fast --offline 2>&1 | tail -6 ) > $OUT/demo_with_patch.log
 git -C /repo worktree remove --force $C
 echo "== demo without patch:"; tail -1 $OUT/demo_without_patch.log
 echo "== suite with patch:"; tail -1 $OUT/suite_with_patch.log
